@@ -477,8 +477,8 @@ def check_c16(tier, deadline):
     rep = Report("C16", tier, "fault_enumeration")
     runs = []
     # (flavour, profile, per-load limit, primed): primed = the loader children are forked from a process that has already loaded valid files
-    plan = [("plain", "full", 0.4, False), ("plain", "boundary", 0.4, True), ("asan", "boundary", 2.0, True)] if tier == "quick" else \
-           [("plain", "full", 0.4, False), ("plain", "full", 0.4, True), ("asan", "full", 2.0, False), ("asan", "boundary", 2.0, True)]
+    plan = [("plain", "full", 0.4, False), ("plain", "boundary", 0.4, True), ("asan", "boundary", 2.0, True), ("asan", "pairs", 2.0, False)] if tier == "quick" else \
+           [("plain", "full", 0.4, False), ("plain", "full", 0.4, True), ("asan", "full", 2.0, False), ("asan", "boundary", 2.0, True), ("asan", "pairs", 2.0, False)]
     for flavour, profile, limit, primed in plan:
         bdir = build(flavour, ("drv_damage",))
         sc = scratch_dir("c16" + flavour); out = os.path.join(sc, "out.json")
@@ -498,7 +498,7 @@ def check_c16(tier, deadline):
     rep.coverage = {"evaluations": sum(d["done"] for d in runs), "distinct_nontrivial": sum(d["done"] for d in runs),
                     "rule": "6 small valid base files (blank, points only, points+analogs+events, multi-dimensional parameters, leading zeros, channels with the minimal parameter set) from the independent encoder; damage = every truncation length; "
                             "every byte of header + parameter section + first data block x {0,1,0x7F,0x80,0xFF}; every structural byte (name lengths, ids, next-offsets, types, dimension counts, dimensions, "
-                            "description lengths, prologue, header counts/range/data start) x all 256 values; pairs of structural bytes x boundary values (2 bases quick, all thorough); each damaged file loaded in a forked "
+                            "description lengths, prologue, header counts/range/data start) x all 256 values; pairs of structural bytes x boundary values (2 bases quick, all thorough); under the sanitizer also EVERY pair of structural bytes of the smallest base(s) x {1,0x7F}^2 (thorough: {1,0x7F,0xFF}^2, three bases); each damaged file loaded in a forked "
                             "child (plain build: address-space cap + watchdog, timeouts re-run alone with a 10x limit; ASan build: sanitizer reports); every case is a distinct damaged input; 'primed' runs fork the children from a process that has already loaded 12 valid files "
                             "(process-wide state left by earlier loads is warm), the others from a process that never ran library code",
                     "exhaustive": all(d["done"] >= d["cases"] for d in runs),
